@@ -170,6 +170,11 @@ func (g *joinRig) jctx() context.Context {
 	return g.ctx
 }
 
+// e10LossyDst (set by a case around newJoinRig; cases run one at a time): the
+// destination's watch loses about a third of its events, so that deletions and
+// changes are only discovered by the destination controller's relists.
+var e10LossyDst bool
+
 func newJoinRig(kind string, core *kit.Core, dstLatency time.Duration) (*joinRig, error) {
 	g := &joinRig{kind: kind, core: core, log: kit.NewLog(core)}
 	base, cancel := context.WithCancel(context.Background())
@@ -181,6 +186,16 @@ func newJoinRig(kind string, core *kit.Core, dstLatency time.Duration) (*joinRig
 				return kit.ListFault{Latency: dstLatency}
 			}
 			return kit.ListFault{}
+		}
+	}
+	if e10LossyDst {
+		g.dstSrv.WatchPlan = func(int) kit.WatchFault {
+			f := kit.NoWatchFault()
+			f.Drop = map[int]bool{}
+			for i := 2; i < 2000; i += 3 {
+				f.Drop[i] = true
+			}
+			return f
 		}
 	}
 	pods, err := pod.BuildController(g.ctx, g.log, g.dstSrv)
@@ -554,12 +569,18 @@ func e10Case(kind string, seed uint64, n int) Case {
 		if lateDst {
 			dl = 2 * time.Second
 		}
+		lossy := n%3 == 2 && !lateDst && core != nil
+		e10LossyDst = lossy
 		g, err := newJoinRig(kind, core, dl)
+		e10LossyDst = false
 		if err != nil {
 			r.Inc("building bases: " + err.Error())
 			return
 		}
 		defer g.cancel()
+		if lossy {
+			r.Add("lossy-destination-watch-cases", 1)
+		}
 		if lateDst {
 			// the join is created while the destination's first list is still in
 			// flight and the (possibly empty) source is already ready
@@ -699,6 +720,9 @@ func e10Case(kind string, seed uint64, n int) Case {
 					time.Sleep(time.Duration(1+rng.Intn(2000)) * time.Millisecond)
 				}
 				if s%15 == 14 || s == steps-1 {
+					if lossy {
+						time.Sleep(70 * time.Second) // one relist of the destination (period 1 min +-10%)
+					}
 					core.Barrier()
 					if !isClosed(ji.ready) {
 						r.V("C09", "join-not-ready", "join %s over ready bases is not ready at quiescence (cycle %d step %d)", kind, cyc, s)
